@@ -45,6 +45,8 @@ pub enum Script {
     Downgrade(u8),
     /// upgrade an outside Weak to t; keep the result if Some
     UpgradeRoot(u8),
+    /// drop an outside Weak to t (possibly the last one to an object that is being destroyed)
+    DropWeakRoot(u8),
     /// upgrade the k-th Weak stored in the dying value itself (C05)
     UpgradeOwn(u8),
     /// panic with a recognisable payload (C11)
@@ -103,6 +105,7 @@ impl Script {
             Script::Panic => [10, 0, 0],
             Script::CloneOwn(k) => [11, k, 0],
             Script::DropOwn(k) => [12, k, 0],
+            Script::DropWeakRoot(t) => [13, t, 0],
         }
     }
 }
@@ -140,6 +143,7 @@ impl fmt::Display for Script {
             Script::Unadopt(a, b) => write!(f, "unadopt.{a}.{b}"),
             Script::Downgrade(t) => write!(f, "downgrade.{t}"),
             Script::UpgradeRoot(t) => write!(f, "upgraderoot.{t}"),
+            Script::DropWeakRoot(t) => write!(f, "dropweakroot.{t}"),
             Script::UpgradeOwn(k) => write!(f, "upgradeown.{k}"),
             Script::Panic => write!(f, "panic"),
             Script::CloneOwn(k) => write!(f, "cloneown.{k}"),
@@ -191,6 +195,7 @@ pub fn parse_script(s: &str) -> Result<Script, String> {
         "unadopt" => Script::Unadopt(a(1)?, a(2)?),
         "downgrade" => Script::Downgrade(a(1)?),
         "upgraderoot" => Script::UpgradeRoot(a(1)?),
+        "dropweakroot" => Script::DropWeakRoot(a(1)?),
         "upgradeown" => Script::UpgradeOwn(a(1)?),
         "panic" => Script::Panic,
         "cloneown" => Script::CloneOwn(a(1)?),
